@@ -14,6 +14,11 @@ structure T where
   nodes : List (Bytes × Kind) := []      -- existing absolute paths
   streams : List Bytes := []             -- `Tailer.logstreams`: paths with a live stream
   delivered : List (Bytes × Bytes) := [] -- (path, line) in delivery order
+  /-- tailed paths at which a *new* file has appeared since the stream last looked (created or
+      renamed there while the stream still holds the previous file): what is appended to it is
+      seen only when the stream next wakes, and only if the file is still at the path then -/
+  fresh : List Bytes := []
+  pending : List (Bytes × Bytes) := []   -- lines appended to such files, not yet seen
 deriving Repr
 
 structure Cfg where
@@ -47,23 +52,33 @@ def globOne (cfg : Cfg) (t : T) (pat : Bytes) : T :=
   (t.nodes.map (·.1)).foldl (fun t p =>
     if cfg.globMatch pat p && kindOf t p = some .file && !cfg.ignore (baseName p) then tailPath t p else t) t
 
-/-- a woken stream whose path no longer names a file ends and is dropped from the map -/
+/-- a woken stream whose path no longer names a file ends and is dropped from the map; one whose
+    path names a new file reopens it and reads it from the start -/
 def streamWake (t : T) : T :=
-  { t with streams := t.streams.filter (fun p => kindOf t p = some .file) }
+  { t with streams := t.streams.filter (fun p => kindOf t p = some .file),
+           delivered := t.delivered ++ t.pending.filter (fun d => kindOf t d.1 = some .file && t.streams.contains d.1),
+           pending := [], fresh := [] }
 
 def poll (cfg : Cfg) (t : T) : T :=
   cfg.patterns.foldl (globOne cfg) (streamWake t)
 
 def step (cfg : Cfg) (t : T) : Op → T
-  | .createFile p => if (kindOf t p).isSome then t else { t with nodes := t.nodes ++ [(p, .file)] }
+  | .createFile p =>
+    if (kindOf t p).isSome then t
+    else { t with nodes := t.nodes ++ [(p, .file)], fresh := if t.streams.contains p then p :: t.fresh else t.fresh }
   | .mkdir p => if (kindOf t p).isSome then t else { t with nodes := t.nodes ++ [(p, .dir)] }
-  | .remove p => { t with nodes := t.nodes.filter (·.1 ≠ p) }
+  | .remove p => { t with nodes := t.nodes.filter (·.1 ≠ p), pending := t.pending.filter (·.1 ≠ p) }
   | .rename p q =>
     match kindOf t p, kindOf t q with
-    | some k, none => { t with nodes := t.nodes.filter (·.1 ≠ p) ++ [(q, k)] }
+    | some k, none =>
+      { t with nodes := t.nodes.filter (·.1 ≠ p) ++ [(q, k)], pending := t.pending.filter (·.1 ≠ p),
+               fresh := if t.streams.contains q then q :: t.fresh else t.fresh }
     | _, _ => t
   | .appendLine p l =>
-    if kindOf t p = some .file ∧ t.streams.contains p then { t with delivered := t.delivered ++ [(p, l)] } else t
+    if kindOf t p = some .file ∧ t.streams.contains p then
+      if t.fresh.contains p then { t with pending := t.pending ++ [(p, l)] }
+      else { t with delivered := t.delivered ++ [(p, l)] }
+    else t
   | .poll => poll cfg t
 
 def run (cfg : Cfg) (t : T) (ops : List Op) : T := ops.foldl (step cfg) t
